@@ -35,7 +35,18 @@ structure Test where
   group   : Bytes
   name    : Bytes
   ignored : Bool
+  /-- `IgnoredUtestShell::runIgnored_` of this shell (meaningless for a plain `UtestShell`) -/
+  flag    : Bool := false
+  file    : Bytes := []
+  line    : Nat := 0
 deriving Repr, DecidableEq, Inhabited
+
+/-- `shell->setRunIgnored()`: `IgnoredUtestShell` sets its flag, `UtestShell::setRunIgnored` is empty -/
+def Test.setRunIgnored (t : Test) : Test := if t.ignored then { t with flag := true } else t
+
+/-- `shell->willRun()`: `UtestShell::willRun` is `true`; `IgnoredUtestShell::willRun` is
+    `if (runIgnored_) return UtestShell::willRun(); return false;` -/
+def Test.willRun (t : Test) : Bool := if t.ignored then (if t.flag then true else false) else true
 
 /-- a `TestFilter` -/
 structure Filter where
@@ -117,12 +128,12 @@ def utestShellRunOneTest (t : Test) (c : Counters) : Counters × List Ev :=
 def shellFlagAtUse (registryFlag shellFlagBefore : Bool) : Bool :=
   if registryFlag then true else shellFlagBefore
 
-/-- `IgnoredUtestShell::runOneTest`.  It reads the shell's own `runIgnored_`, which is
-    `shellFlagAtUse registry.runIgnored_ before`; a shell's flag is only ever set from the
-    registry's flag and neither is ever cleared, so `before → registry flag`, hence the value
-    read equals the registry's flag (`Props/C02.lean`, `ignored_flag_is_registry_flag`). -/
+/-- `IgnoredUtestShell::runOneTest`.  It reads the shell's own `runIgnored_`, which at this
+    point is `shellFlagAtUse registry.runIgnored_ t.flag` (`t.flag` = the shell's flag before the
+    iteration: set by an earlier run with run-ignored on, or by a direct `shell->setRunIgnored()`). -/
 def ignoredRunOneTest (cfg : Cfg) (t : Test) (c : Counters) : Counters × List Ev :=
-  if Gen.Registry.ignoredRuns cfg.runIgnored then utestShellRunOneTest t c else (c.countIgnored, [])
+  if Gen.Registry.ignoredRuns (shellFlagAtUse cfg.runIgnored t.flag) then utestShellRunOneTest t c
+  else (c.countIgnored, [])
 
 /-- virtual dispatch on the shell's class -/
 def runOneTest (cfg : Cfg) (t : Test) (c : Counters) : Counters × List Ev :=
@@ -261,8 +272,9 @@ def Reg.order (r : Reg) : List Nat := walk r.next r.objs.size r.head
 def Reg.tests (r : Reg) : List Test := r.order.filterMap (fun i => r.objs[i]?)
 
 /-- a new shell is created and registered: `tests_ = test->addTest(tests_)` -/
-def Reg.addTest (r : Reg) (group name : Bytes) (ignored : Bool) : Reg :=
-  { r with objs := r.objs.push { id := r.objs.size, group := group, name := name, ignored := ignored },
+def Reg.addTest (r : Reg) (group name : Bytes) (ignored : Bool) (file : Bytes := []) (line : Nat := 0) : Reg :=
+  { r with objs := r.objs.push { id := r.objs.size, group := group, name := name, ignored := ignored,
+                                 file := file, line := line },
            next := setNext r.next r.objs.size r.head,
            head := some r.objs.size }
 
@@ -279,5 +291,175 @@ def Reg.shuffleTests (r : Reg) (rs : List Nat) : Reg :=
            head := firstOf (shuffleArr rs (mkArray r.next r.objs.size r.head)) }
 
 def Reg.run (r : Reg) : Counters × List Ev := runAllTests r.cfg r.tests
+
+/-- what `runAllTests` leaves behind in the shells: `if (runIgnored_) test->setRunIgnored();` was
+    executed for every shell of the list -/
+def markRunIgnored (runIgnored : Bool) (order : List Nat) (objs : Array Test) : Array Test :=
+  (objs.toList.map (fun t => if runIgnored && order.contains t.id then t.setRunIgnored else t)).toArray
+
+def Reg.afterRun (r : Reg) : Reg :=
+  { r with objs := markRunIgnored r.runIgnored r.order r.objs }
+
+/-- a direct `shell->setRunIgnored()` on shell `i` (not through the registry) -/
+def Reg.shellSetRunIgnored (r : Reg) (i : Nat) : Reg :=
+  { r with objs := r.objs.modify i Test.setRunIgnored }
+
+/-- `TestRegistry::unDoLastAddTest`: `tests_ = tests_ ? tests_->getNext() : NULL` -/
+def Reg.unDoLastAddTest (r : Reg) : Reg :=
+  { r with head := match r.head with
+                   | some i => r.next i
+                   | none => none }
+
+/-! ## queries that walk the list (`rest` of a node = what its `next_` chain holds) -/
+
+/-- `TestRegistry::findTestWithName`: first shell in list order whose name equals -/
+def findTestWithName (name : Bytes) : List Test → Option Nat
+  | [] => none
+  | t :: rest => if t.name == name then some t.id else findTestWithName name rest
+
+/-- `TestRegistry::findTestWithGroup` -/
+def findTestWithGroup (group : Bytes) : List Test → Option Nat
+  | [] => none
+  | t :: rest => if t.group == group then some t.id else findTestWithGroup group rest
+
+/-- `TestRegistry::countTests`: `tests_ ? tests_->countTests() : 0` over the list -/
+def countTestsList : List Test → Nat
+  | [] => 0
+  | _ :: rest => countTestsList rest + 1
+
+/-- `TestRegistry::getTestWithNext(test)`:
+    `while (current && current->getNext() != test) current = current->getNext(); return current;`
+    `target = none` is a NULL argument (the loop then stops at the last shell). -/
+def getTestWithNext (target : Option Nat) : List Test → Option Nat
+  | [] => none
+  | [t] => if target = none then some t.id else none
+  | t :: n :: rest => if target = some n.id then some t.id else getTestWithNext target (n :: rest)
+
+/-! ## list modes (-lg / -ln / -ll); the printed text as bytes -/
+
+def hash : UInt8 := 35
+def space : UInt8 := 32
+def dot : UInt8 := 46
+
+/-- the loop of `listTestGroupNames`: `gname = "#" + group + "#"`; appended with a space unless
+    `groupList.contains(gname)` -/
+def lgLoop : List Test → Bytes → Bytes
+  | [], acc => acc
+  | t :: rest, acc =>
+    if Text.isInfix acc ([hash] ++ t.group ++ [hash]) then lgLoop rest acc
+    else lgLoop rest (acc ++ ([hash] ++ t.group ++ [hash]) ++ [space])
+
+/-- `groupList.replace("#", ""); if (endsWith(" ")) groupList = subString(0, size - 1);` -/
+def listFinish (acc : Bytes) : Bytes :=
+  if Text.endsWith (Text.replaceAll acc [hash] []) [space] then
+    Text.subString (Text.replaceAll acc [hash] []) 0 ((Text.replaceAll acc [hash] []).length - 1)
+  else Text.replaceAll acc [hash] []
+
+/-- `TestRegistry::listTestGroupNames`: what is printed -/
+def listTestGroupNames (ts : List Test) : Bytes := listFinish (lgLoop ts [])
+
+def groupDotName (t : Test) : Bytes := [hash] ++ t.group ++ [dot] ++ t.name ++ [hash]
+
+/-- the loop of `listTestGroupAndCaseNames`: only tests for which `testShouldRun` holds are
+    listed; `testShouldRun` counts the others as filtered out -/
+def lnLoop (cfg : Cfg) : List Test → Bytes → Counters → Bytes × Counters
+  | [], acc, c => (acc, c)
+  | t :: rest, acc, c =>
+    if shouldRun cfg t then
+      (if Text.isInfix acc (groupDotName t) then lnLoop cfg rest acc c
+       else lnLoop cfg rest (acc ++ groupDotName t ++ [space]) c)
+    else lnLoop cfg rest acc c.countFilteredOut
+
+/-- `TestRegistry::listTestGroupAndCaseNames`: printed text and the `TestResult` counters -/
+def listTestGroupAndCaseNames (cfg : Cfg) (ts : List Test) : Bytes × Counters :=
+  (listFinish (lnLoop cfg ts [] {}).1, (lnLoop cfg ts [] {}).2)
+
+/-- `%d` of a non-negative line number -/
+def decimal (n : Nat) : Bytes := (Nat.toDigits 10 n).map (fun c => UInt8.ofNat c.toNat)
+
+/-- `TestRegistry::listTestLocations`: `group.name.file.line\n` for EVERY shell of the list
+    (this mode does not look at the filters) -/
+def listTestLocations : List Test → Bytes
+  | [] => []
+  | t :: rest =>
+    (t.group ++ [dot] ++ t.name ++ [dot] ++ t.file ++ [dot] ++ decimal t.line ++ [10]) ++
+      listTestLocations rest
+
+/-! ## CommandLineTestRunner::runAllTests -/
+
+inductive ListMode
+  | none | groups | names | locations
+deriving Repr, DecidableEq, Inhabited
+
+/-- what the parsed command line holds, as far as this property is concerned -/
+structure RunnerArgs where
+  groupFilters : List Filter
+  nameFilters  : List Filter
+  runIgnored   : Bool
+  reversing    : Bool
+  shuffleSeed  : Option Nat         -- `some seed`: -s given
+  repeatCount  : Nat
+  listMode     : ListMode
+deriving Repr, Inhabited
+
+/-- what the runner's `TestOutput` receives -/
+inductive ROut
+  | text (b : Bytes)
+  | run (c : Counters) (evs : List Ev)
+deriving Repr, Inhabited
+
+def ofAscii (s : String) : Bytes := s.toList.map (fun c => UInt8.ofNat c.toNat)
+
+/-- `initializeTestRun`: the registry gets the arguments' filter lists and, with -ri, run-ignored -/
+def initializeTestRun (a : RunnerArgs) (r : Reg) : Reg :=
+  { r with groupFilters := a.groupFilters, nameFilters := a.nameFilters,
+           runIgnored := (if a.runIgnored then true else r.runIgnored) }
+
+/-- `TestOutput::printTestRun(number, total)` -/
+def printTestRun (number total : Nat) : List ROut :=
+  if total > 1 then
+    [.text (ofAscii "Test run " ++ decimal number ++ ofAscii " of " ++ decimal total ++ [10])]
+  else []
+
+/-- `TestResult::isFailure` for a run without failing checks (the scripted bodies never fail):
+    `failureCount != 0 || runCount + ignoredCount == 0` -/
+def ranNothing (c : Counters) : Bool := c.runCount + c.ignoredCount == 0
+
+structure LoopOut where
+  reg    : Reg
+  out    : List ROut
+  failed : Nat             -- `failedExecutionCount`
+  rands  : List Nat        -- random numbers not consumed
+
+/-- `while (loopCount++ < repeatCount) { if shuffling: shuffleTests(seed); printTestRun; TestResult tr;
+    runAllTests(tr); ... if (tr.isFailure()) failedExecutionCount++; }`;
+    arguments: repetitions still to do, `loopCount` after the increment -/
+def repeatLoop (shuffling : Bool) (total : Nat) : Nat → Nat → Reg → List Nat → LoopOut
+  | 0, _, r, rs => { reg := r, out := [], failed := 0, rands := rs }
+  | k + 1, loopCount, r, rs =>
+    let r1 := if shuffling then r.shuffleTests (rs.take (randsNeeded r.order.length)) else r
+    let rs1 := if shuffling then rs.drop (randsNeeded r.order.length) else rs
+    let rest := repeatLoop shuffling total k (loopCount + 1) r1.afterRun rs1
+    { reg := rest.reg,
+      out := printTestRun loopCount total ++ [ROut.run r1.run.1 r1.run.2] ++ rest.out,
+      failed := (if ranNothing r1.run.1 then 1 else 0) + rest.failed,
+      rands := rest.rands }
+
+/-- `CommandLineTestRunner::runAllTests()` after a successful parse; returns the registry, the
+    output, and the return value (no failing checks: `failedExecutionCount`) -/
+def runnerRunAllTests (a : RunnerArgs) (r : Reg) (rs : List Nat) : Reg × List ROut × Nat :=
+  match a.listMode with
+  | .groups => (initializeTestRun a r, [.text (listTestGroupNames (initializeTestRun a r).tests)], 0)
+  | .names =>
+    (initializeTestRun a r,
+     [.text (listTestGroupAndCaseNames (initializeTestRun a r).cfg (initializeTestRun a r).tests).1], 0)
+  | .locations => (initializeTestRun a r, [.text (listTestLocations (initializeTestRun a r).tests)], 0)
+  | .none =>
+    let r0 := if a.reversing then (initializeTestRun a r).reverseTests else initializeTestRun a r
+    let banner := match a.shuffleSeed with
+      | some seed => [ROut.text (ofAscii "Test order shuffling enabled with seed: " ++ decimal seed ++ [10])]
+      | none => []
+    let lo := repeatLoop a.shuffleSeed.isSome a.repeatCount a.repeatCount 1 r0 rs
+    (lo.reg, banner ++ lo.out, lo.failed)
 
 end Registry
